@@ -305,7 +305,7 @@ def coq_alg(a):
 
 def coq_dobs(o, loose=False):
     if o["cls"] == "err":
-        return f"(DErr {o['err']})"
+        return f"({'DErrT' if loose else 'DErr'} {o['err']})"
     if o["cls"] == "vec":
         return f"({'DVecT' if loose else 'DVec'} {T.zrow(o['val'])})"
     return "DOther"
